@@ -416,11 +416,15 @@ impl TryFrom<Option<&SubtypeElements>> for PerVisibleRangeConstraints {
             },
             Some(SubtypeElements::ContainedSubtype {
                 subtype,
-                extensible: _,
+                extensible,
             }) => per_visible_range_constraints(
                 matches!(subtype, ASN1Type::Integer(_)),
                 subtype.constraints(),
-            ),
+            )
+            .map(|mut c| {
+                c.extensible |= *extensible;
+                c
+            }),
             x => {
                 eprintln!("{x:?}");
                 unreachable!()
@@ -551,9 +555,29 @@ fn fold_constraint_set(
             c,
             Some(SubtypeElements::ContainedSubtype {
                 subtype: _,
-                extensible: _,
+                extensible,
             }),
-        ) => return Ok((set.operator != SetOperator::Union).then(|| c.clone())),
+        ) => {
+            // a trailing extension marker is attached to the last element of the set
+            return Ok(
+                (set.operator != SetOperator::Union).then(|| match (c.clone(), *extensible) {
+                    (SubtypeElements::SingleValue { value, .. }, true) => {
+                        SubtypeElements::SingleValue {
+                            value,
+                            extensible: true,
+                        }
+                    }
+                    (SubtypeElements::ValueRange { min, max, .. }, true) => {
+                        SubtypeElements::ValueRange {
+                            min,
+                            max,
+                            extensible: true,
+                        }
+                    }
+                    (c, _) => c,
+                }),
+            );
+        }
         (SubtypeElements::PermittedAlphabet(elem_or_set), None)
         | (SubtypeElements::SizeConstraint(elem_or_set), None) => {
             return match &**elem_or_set {
